@@ -92,6 +92,22 @@ def model_targets(layer):
     return out
 
 
+def dep_proof_targets(layer, dep):
+    """Proofs/*.vo of a dependency layer that the sources of `layer` Require by name."""
+    words = set()
+    for f in glob.glob(os.path.join(layer_dir(layer), "**", "*.v"), recursive=True):
+        if "/Gen/" in f:
+            continue
+        for line in open(f, errors="replace"):
+            if "Require" in line:
+                words.update(re.findall(r"[A-Za-z_][A-Za-z0-9_']*", line))
+    out = []
+    for f in sorted(glob.glob(os.path.join(layer_dir(dep), "Proofs", "*.v"))):
+        if os.path.basename(f)[:-2] in words:
+            out.append("Proofs/" + os.path.basename(f)[:-2] + ".vo")
+    return out
+
+
 def build_layer(layer, jobs=16, timeout=3000, targets=None):
     """Build a layer through coq_makefile (full .vo compilation, never -vos).
     targets=None builds everything; targets="models" builds Base/Model/Corr only; a list builds those .vo
@@ -99,7 +115,7 @@ def build_layer(layer, jobs=16, timeout=3000, targets=None):
     proof file under construction elsewhere cannot break or stall this build.  Every coqc runs under a
     12 GB address-space limit and the whole make under a wall-clock timeout."""
     for dep in LAYER_DEPS.get(layer, []):
-        rc, out = build_layer(dep, jobs, timeout, targets="models")
+        rc, out = build_layer(dep, jobs, timeout, targets=model_targets(dep) + dep_proof_targets(layer, dep))
         if rc != 0:
             return rc, out
     d = layer_dir(layer)
